@@ -449,9 +449,9 @@ theorem firstRows_append (M1 M2 : List MapRow) (seen : List Nat) :
     by_cases hc : seen.contains m.var = true
     · simp only [hc, if_true]
       exact ih seen
-    · simp only [hc, if_false]
+    · have hc' : seen.contains m.var = false := by simpa using hc
+      simp only [hc', Bool.false_eq_true, if_false]
       rw [ih (m.var :: seen), List.cons_append]
-      simp
 
 theorem mem_seenAfter (M : List MapRow) (seen : List Nat) (v : Nat) (h : v ∈ seenAfter M seen) :
     v ∈ seen ∨ ∃ m ∈ M, m.var = v := by
